@@ -25,7 +25,8 @@ RULE = (
     "the very names the generator writes, stale .c/.h files.  Monitors: return value must be Err; a "
     "sys.addaudithook event log of every write-open / remove / rename / mkdir / rmdir during the "
     "call (catches write-then-delete and writes outside the directory) and a content-hash snapshot "
-    "of the directory before/after.  distinct = (generator, rejection source, directory state)."
+    "of the directory before/after.  The `python -m fcp generate` command line is run as a subprocess for an "
+    "accepted and a rejected schema per generator.  distinct = (generator, rejection source, directory state)."
 )
 ASSUMPTIONS = [
     "on success the C plug-in itself removes stale .c/.h files from the directory; deletions on the success path are recorded, not judged",
@@ -249,6 +250,69 @@ def drive(run, gen_name, t, expect_reject, source, dir_state, root, probe=None, 
         run.sample({"generator": gen_name, "rejection_source": source, "dir_state": dir_state, "result": repr(result)[:120], "fs_events": muts[:6], "returned_files": case.get("returned_files")})
 
 
+def cli_cases(run, root):
+    """The `fcp generate <generator> <schema> <output>` command line itself: a rejected schema must
+    print an error and leave the directory untouched, an accepted one must write what the plug-in
+    returns (compared with an in-process run of the plug-in on the same file)."""
+    import subprocess
+
+    r = run.rng("cli")
+    t, decls = base_tree(r)
+    good = S.print_schema(decls)
+    st = [d for d in decls if d["kind"] == "struct"][0]
+    dup = good + "\n" + S.print_schema([st]).split("\n", 1)[1]
+    for gen_name in ("dbc", "cpp", "can_c"):
+        for label, text, reject in (("accepted", good, False), ("duplicate-type", dup, True)):
+            d = os.path.join(root, "cli_%s_%s" % (gen_name, label))
+            os.makedirs(d)
+            src = os.path.join(d, "schema.fcp")
+            open(src, "w").write(text)
+            out_dir = os.path.join(d, "out")
+            os.makedirs(out_dir)
+            open(os.path.join(out_dir, "keep.txt"), "w").write("keep\n")
+            before = audit.snapshot(out_dir)
+            p = subprocess.run([sys.executable, "-m", "fcp", "generate", gen_name, src, out_dir], cwd=d, env=env.child_env({"PYTHONDONTWRITEBYTECODE": "1"}), capture_output=True, text=True, timeout=300)
+            after = audit.snapshot(out_dir)
+            case = {"generator": gen_name, "schema": text, "command_line": "fcp generate %s schema.fcp out" % gen_name, "stdout": p.stdout[-600:], "stderr": p.stderr[-600:]}
+            run.count("cli_runs")
+            if reject:
+                if before != after:
+                    run.violation("`fcp generate %s` changed the output directory for a schema the verifier rejects" % gen_name, case)
+                    return
+                if "rror" not in p.stdout + p.stderr:
+                    run.violation("`fcp generate %s` reported no error for a schema the verifier rejects" % gen_name, case)
+                    return
+                run.case(sig="cli|%s|rejected" % gen_name)
+            else:
+                import importlib
+
+                from fcp.parser import get_fcp
+
+                mod = importlib.import_module("fcp_" + gen_name)
+                ref_dir = os.path.join(d, "ref")
+                want = {}
+                for f in mod.Generator().generate(get_fcp(src).unwrap(), {"output": ref_dir, "templates": {}, "skels": {}}):
+                    if f.get("type") == "file":
+                        want[os.path.relpath(str(f["path"]), ref_dir)] = str(f["contents"])
+                got = {k: v for k, v in (after or {}).items() if v[0] == "file" and k != "keep.txt"}
+                if sorted(got) != sorted(os.path.normpath(k) for k in want):
+                    run.violation("`fcp generate %s` wrote files %s, the plug-in returns %s" % (gen_name, sorted(got), sorted(want)), case)
+                    return
+                import re
+
+                stamp = re.compile(r"^// Generated using fcp .*$", re.M)
+                for rel, contents in want.items():
+                    disk = open(os.path.join(out_dir, rel), newline="").read()
+                    if stamp.sub("", disk) != stamp.sub("", contents):
+                        run.violation("`fcp generate %s` wrote %s with contents that differ from what the plug-in returns" % (gen_name, rel), case)
+                        return
+                if (after or {}).get("keep.txt", (None,))[:3] != (before or {}).get("keep.txt", (None,))[:3]:
+                    run.violation("`fcp generate %s` modified an unrelated file" % gen_name, case)
+                    return
+                run.case(sig="cli|%s|accepted" % gen_name)
+            shutil.rmtree(d, ignore_errors=True)
+
+
 def run(run):
     sys.dont_write_bytecode = True
     root = env.scratch("c10")
@@ -287,12 +351,14 @@ def run(run):
             for cat in CATEGORIES:
                 for pos in ("last", "first"):
                     drive(run, g, t, True, "synthetic/%s/%s" % (cat, pos), rr.choice(DIR_STATES), root, probe=(cat, pos), known_names=names)
+        if run.shard == 0:
+            cli_cases(run, root)
     finally:
         shutil.rmtree(root, ignore_errors=True)
 
 
 def conclude(run):
-    run.require("generate_calls", "rejections_wrote_nothing", "successes_wrote_exactly_returned", "files_compared")
+    run.require("cli_runs", "generate_calls", "rejections_wrote_nothing", "successes_wrote_exactly_returned", "files_compared")
 
 
 def replay(run, case):
